@@ -1754,7 +1754,11 @@ func retCases(fn *ssa.Function) []retCase {
 		}
 	}
 	for _, ret := range normalReturns(fn) {
-		expand(retCase{ret: ret, vals: append([]ssa.Value{}, ret.Results...), conds: dominatingConds(ret.Block()), pos: ret.Pos()}, 0)
+		vals := make([]ssa.Value, len(ret.Results))
+		for i := range ret.Results {
+			vals[i] = retVal(ret, i) // looks through the result cells of functions with defer
+		}
+		expand(retCase{ret: ret, vals: vals, conds: dominatingConds(ret.Block()), pos: ret.Pos()}, 0)
 	}
 	return out
 }
